@@ -1,4 +1,5 @@
 import Proofs.DepLoad
+import Proofs.DepFuel
 import Proofs.DepScope
 /-!
 # C17  The dependency sorter returns a deterministic, source-stable topological order
@@ -169,6 +170,15 @@ theorem cycle_without_type_is_error (ord : Ord) (hord : ord.OK) (g : Graph) (hwf
         have hd'e : d' ∈ e'.decls := by rw [hd']; exact List.mem_cons_self
         exact hpre d' (hall e' he'0 rfl d' hd'e) ⟨e', he'S, hd'e⟩
     · rw [hnt] at ht; cases ht
+
+/-- **sort_fuel_sufficient**: the fuel of the model's loop is never the reason for `none`: with any
+    larger amount of fuel the result is the same (every round removes a node or at least one edge),
+    so `none` always stands for the declaration-loop error of the code. -/
+theorem sort_fuel_sufficient (ord : Ord) (hord : ord.OK) (g : Graph) (hwf : WF g) (extra : Nat) :
+    sortLoop ord (sortFuel (removeUnresolvable g) + extra) 0 (removeUnresolvable g) [] = sortGraph ord g := by
+  unfold sortGraph
+  apply sortLoop_fuel ord hord _ _ 0 _ [] hwf.removeUnresolvable <;>
+    (unfold sortFuel measure; omega)
 
 /-- the declarations the scope walk produces are in creation order with ascending positions
     and none is a forward declaration: the hypotheses of the theorems above always hold -/
